@@ -38,6 +38,7 @@ CANDIDATES = [
     "print.once(\"once{i}\")", "header_table()", "row_table()", "var_table()", "run_table()", "@x{i}.latch = #{h}", "@x{i}.onchange = #{h}", "@x{i}.increase = int(#{h})",
     "@x{i}.notnone = #{h}", "@x{i}.asbool = #{h}", "@x{i}.nocontrib = #{h}", "#{h}.nocontrib == \"a\"", "@y{i} = @x{i}", "@y{i} == #{h}", "#{h} == #{g}",
     "last.nocontrib() -> @lst{i} = count_scans()", "first_line.nocontrib() -> @fst{i} = 1", "line_number() == 2 -> @w{i} = #{h}", "yes() -> push(\"zs{i}\", line_number())",
+    "date(#{h})", "datetime(#{h})", "regex(#{h}, /[[a-z]]/)", "regex(#{h}, /a{{1,2}}b/)", "exact(#{h}, /x|y/)",
     "skip(#{h} == \"c\")", "stop(#{h} == \"FAIL\")", "fail_and_stop(#{g} == \"FAIL\")", "advance(1)", "exists(#{h}) -> advance(1)",
 ]
 
